@@ -224,6 +224,9 @@ func runV1(c *v1.Client, o *Op) (out Outcome) {
 	case "update":
 		in := &v1sdk.UpdateItemInput{TableName: strptr(o.Table), Key: toV1Item(itemOrEmpty(o.KeyItem)), UpdateExpression: strptr(o.Expr), ConditionExpression: condPtr(o.Cond),
 			ExpressionAttributeNames: v1Names(o), ExpressionAttributeValues: v1Values(o)}
+		if o.NoExpr {
+			in.UpdateExpression = nil
+		}
 		res, err := c.UpdateItem(in)
 		if err != nil {
 			return errOutcomeV1(err)
